@@ -1,0 +1,181 @@
+//! Verification hooks (compiled only with `--cfg grex_verif` or under Kani).
+//!
+//! Thin forwarders over plain types so that out-of-tree harnesses and the
+//! native counterexample replayer can call crate-private functions.
+//! They call the real functions and add no logic of their own.
+
+use crate::cluster::GraphemeCluster;
+use crate::component::Component;
+use crate::config::RegExpConfig;
+use crate::grapheme::Grapheme;
+use crate::quantifier::Quantifier;
+use crate::unicode_tables::{DECIMAL_NUMBER, WHITE_SPACE, WORD};
+use crate::RegExpBuilder;
+
+pub fn is_digit(c: char) -> bool {
+    crate::cluster::verif_forward::is_digit(c)
+}
+
+pub fn is_word(c: char) -> bool {
+    crate::cluster::verif_forward::is_word(c)
+}
+
+pub fn is_space(c: char) -> bool {
+    crate::cluster::verif_forward::is_space(c)
+}
+
+/// The three static range tables: decimal digits, word characters, white space.
+pub fn tables() -> [&'static [(char, char)]; 3] {
+    [DECIMAL_NUMBER, WORD, WHITE_SPACE]
+}
+
+fn config_with_class_flags(flags: [bool; 6]) -> RegExpConfig {
+    let mut config = RegExpConfig::new();
+    config.is_digit_converted = flags[0];
+    config.is_word_converted = flags[1];
+    config.is_space_converted = flags[2];
+    config.is_non_digit_converted = flags[3];
+    config.is_non_word_converted = flags[4];
+    config.is_non_space_converted = flags[5];
+    config
+}
+
+/// Runs `GraphemeCluster::convert_to_char_classes` on a one-unit cluster holding `s`.
+/// `flags` = [digit, word, space, non-digit, non-word, non-space].
+pub fn class_tokens(s: &str, flags: [bool; 6]) -> String {
+    let config = config_with_class_flags(flags);
+    let mut cluster = GraphemeCluster::new(Grapheme::from(s, false, false, false), &config);
+    cluster.convert_to_char_classes();
+    cluster.graphemes().iter().map(|it| it.value()).collect()
+}
+
+pub fn is_char_class_feature_enabled(flags: [bool; 6]) -> bool {
+    config_with_class_flags(flags).is_char_class_feature_enabled()
+}
+
+pub fn lower_for_case_insensitive(test_cases: Vec<String>) -> Vec<String> {
+    crate::regexp::verif_forward::convert_for_case_insensitive_matching(test_cases)
+}
+
+pub fn sort_test_cases(test_cases: Vec<String>) -> Vec<String> {
+    crate::regexp::verif_forward::sort(test_cases)
+}
+
+pub fn escape_char(c: char, use_surrogate_pairs: bool) -> String {
+    crate::grapheme::verif_forward::escape(c, use_surrogate_pairs)
+}
+
+/// Runs `Grapheme::escape_regexp_symbols` on a grapheme holding the single unit `s`.
+pub fn escape_regexp_symbols(s: &str, escape_non_ascii: bool, use_surrogate_pairs: bool) -> String {
+    let mut grapheme = Grapheme::from(s, false, false, false);
+    grapheme.escape_regexp_symbols(escape_non_ascii, use_surrogate_pairs);
+    grapheme.value()
+}
+
+/// The units `GraphemeCluster::from` splits `s` into.
+pub fn split_graphemes(s: &str) -> Vec<String> {
+    let config = RegExpConfig::new();
+    let cluster = GraphemeCluster::from(s, &config);
+    cluster.graphemes().iter().map(|it| it.value()).collect()
+}
+
+/// (flag bit mask in declaration order of `RegExpConfig`, minimum_repetitions, minimum_substring_length)
+pub fn config_bits(builder: &RegExpBuilder) -> (u32, u32, u32) {
+    let c = &builder.config;
+    let flags = [
+        c.is_digit_converted,
+        c.is_non_digit_converted,
+        c.is_space_converted,
+        c.is_non_space_converted,
+        c.is_word_converted,
+        c.is_non_word_converted,
+        c.is_repetition_converted,
+        c.is_case_insensitive_matching,
+        c.is_capturing_group_enabled,
+        c.is_non_ascii_char_escaped,
+        c.is_astral_code_point_converted_to_surrogate,
+        c.is_verbose_mode_enabled,
+        c.is_start_anchor_disabled,
+        c.is_end_anchor_disabled,
+        c.is_output_colorized,
+    ];
+    let mut bits = 0u32;
+    let mut i = 0;
+    while i < flags.len() {
+        if flags[i] {
+            bits |= 1 << i;
+        }
+        i += 1;
+    }
+    (bits, c.minimum_repetitions, c.minimum_substring_length)
+}
+
+pub fn test_cases(builder: &RegExpBuilder) -> &Vec<String> {
+    &builder.test_cases
+}
+
+/// Sets `is_output_colorized` without requiring the `cli` feature.
+pub fn set_output_colorized(builder: &mut RegExpBuilder) {
+    builder.config.is_output_colorized = true;
+}
+
+/// Renders one `Component`. `kind` is the variant's declaration index (0..=17).
+pub fn component_repr(
+    kind: u8,
+    text: &str,
+    a: u32,
+    b: u32,
+    flag1: bool,
+    flag2: bool,
+    is_output_colorized: bool,
+) -> Option<String> {
+    let component = match kind {
+        0 => Component::CapturedLeftParenthesis,
+        1 => Component::CapturedParenthesizedExpression(text.to_string(), flag1, flag2),
+        2 => Component::Caret(flag1),
+        3 => Component::CharClass(text.to_string()),
+        4 => Component::DollarSign(flag1),
+        5 => Component::Hyphen,
+        6 => Component::IgnoreCaseFlag,
+        7 => Component::IgnoreCaseAndVerboseModeFlag,
+        8 => Component::LeftBracket,
+        9 => Component::Pipe,
+        10 => Component::Quantifier(
+            if flag2 {
+                Quantifier::KleeneStar
+            } else {
+                Quantifier::QuestionMark
+            },
+            flag1,
+        ),
+        11 => Component::Repetition(a, flag1),
+        12 => Component::RepetitionRange(a, b, flag1),
+        13 => Component::RightBracket,
+        14 => Component::RightParenthesis,
+        15 => Component::UncapturedLeftParenthesis,
+        16 => Component::UncapturedParenthesizedExpression(text.to_string(), flag1, flag2),
+        17 => Component::VerboseModeFlag,
+        _ => return None,
+    };
+    Some(component.to_repr(is_output_colorized))
+}
+
+/// `Display` of a `Grapheme` with the given units and repetition bounds.
+pub fn grapheme_display(
+    chars: Vec<String>,
+    min: u32,
+    max: u32,
+    is_capturing_group_enabled: bool,
+    is_output_colorized: bool,
+    is_verbose_mode_enabled: bool,
+) -> String {
+    Grapheme::new(
+        chars,
+        min,
+        max,
+        is_capturing_group_enabled,
+        is_output_colorized,
+        is_verbose_mode_enabled,
+    )
+    .to_string()
+}
